@@ -83,6 +83,22 @@ func (bp *BytePred) EvalBool(info *types.Info, e ast.Expr, env bpEnv) (bool, boo
 // Bind returns an environment with obj bound to the integer v.
 func Bind(obj types.Object, v int64) bpEnv { return bpEnv{obj: {I: v}} }
 
+// trunc cuts v to the width of t in the configuration that is analysed: int, uint and uintptr are 32 bits wide in the
+// 386 configuration.
+func (bp *BytePred) trunc(t types.Type, v int64) int64 {
+	if bp != nil && bp.P != nil && bp.P.Config == "386" && t != nil {
+		if b, ok := t.Underlying().(*types.Basic); ok {
+			switch b.Kind() {
+			case types.Int:
+				return int64(int32(v))
+			case types.Uint, types.Uintptr:
+				return int64(uint32(v))
+			}
+		}
+	}
+	return truncate(t, v)
+}
+
 func truncate(t types.Type, v int64) int64 {
 	b, ok := t.Underlying().(*types.Basic)
 	if !ok {
@@ -195,10 +211,10 @@ func (bp *BytePred) evalRaw(info *types.Info, e ast.Expr, env bpEnv, depth int) 
 		case token.NOT:
 			return bpVal{B: !v.B, Is: true}, v.Is
 		case token.SUB:
-			return bpVal{I: truncate(info.Types[e].Type, -v.I)}, !v.Is
+			return bpVal{I: bp.trunc(info.Types[e].Type, -v.I)}, !v.Is
 		case token.XOR:
 			t := info.Types[e].Type
-			return bpVal{I: truncate(t, ^v.I)}, !v.Is
+			return bpVal{I: bp.trunc(t, ^v.I)}, !v.Is
 		}
 		return bpVal{}, false
 	case *ast.BinaryExpr:
@@ -288,28 +304,28 @@ func (bp *BytePred) evalRaw(info *types.Info, e ast.Expr, env bpEnv, depth int) 
 			if bt, isBasic := t.Underlying().(*types.Basic); isBasic && bt.Info()&types.IsUnsigned != 0 {
 				// narrower unsigned types hold non-negative values here
 				if x.Op == token.QUO {
-					return bpVal{I: truncate(t, int64(uint64(l.I)/uint64(r.I)))}, true
+					return bpVal{I: bp.trunc(t, int64(uint64(l.I)/uint64(r.I)))}, true
 				}
-				return bpVal{I: truncate(t, int64(uint64(l.I)%uint64(r.I)))}, true
+				return bpVal{I: bp.trunc(t, int64(uint64(l.I)%uint64(r.I)))}, true
 			}
 			if x.Op == token.QUO {
-				return bpVal{I: truncate(t, l.I/r.I)}, true
+				return bpVal{I: bp.trunc(t, l.I/r.I)}, true
 			}
-			return bpVal{I: truncate(t, l.I%r.I)}, true
+			return bpVal{I: bp.trunc(t, l.I%r.I)}, true
 		case token.ADD:
-			return bpVal{I: truncate(t, l.I+r.I)}, true
+			return bpVal{I: bp.trunc(t, l.I+r.I)}, true
 		case token.SUB:
-			return bpVal{I: truncate(t, l.I-r.I)}, true
+			return bpVal{I: bp.trunc(t, l.I-r.I)}, true
 		case token.MUL:
-			return bpVal{I: truncate(t, l.I*r.I)}, true
+			return bpVal{I: bp.trunc(t, l.I*r.I)}, true
 		case token.OR:
-			return bpVal{I: truncate(t, l.I|r.I)}, true
+			return bpVal{I: bp.trunc(t, l.I|r.I)}, true
 		case token.AND:
-			return bpVal{I: truncate(t, l.I&r.I)}, true
+			return bpVal{I: bp.trunc(t, l.I&r.I)}, true
 		case token.XOR:
-			return bpVal{I: truncate(t, l.I^r.I)}, true
+			return bpVal{I: bp.trunc(t, l.I^r.I)}, true
 		case token.AND_NOT:
-			return bpVal{I: truncate(t, l.I&^r.I)}, true
+			return bpVal{I: bp.trunc(t, l.I&^r.I)}, true
 		case token.SHL:
 			if r.I < 0 {
 				return bpVal{}, false
@@ -317,7 +333,7 @@ func (bp *BytePred) evalRaw(info *types.Info, e ast.Expr, env bpEnv, depth int) 
 			if r.I >= 64 {
 				return bpVal{I: 0}, true
 			}
-			return bpVal{I: truncate(t, int64(uint64(l.I)<<uint(r.I)))}, true
+			return bpVal{I: bp.trunc(t, int64(uint64(l.I)<<uint(r.I)))}, true
 		case token.SHR:
 			if r.I < 0 {
 				return bpVal{}, false
@@ -331,7 +347,7 @@ func (bp *BytePred) evalRaw(info *types.Info, e ast.Expr, env bpEnv, depth int) 
 			if r.I > 62 {
 				return bpVal{}, false
 			}
-			return bpVal{I: truncate(t, l.I>>uint(r.I))}, true
+			return bpVal{I: bp.trunc(t, l.I>>uint(r.I))}, true
 		}
 		return bpVal{}, false
 	case *ast.IndexExpr:
@@ -461,7 +477,7 @@ func (bp *BytePred) evalRaw(info *types.Info, e ast.Expr, env bpEnv, depth int) 
 			if !ok || v.Is {
 				return v, ok
 			}
-			return bpVal{I: truncate(tv.Type, v.I)}, true
+			return bpVal{I: bp.trunc(tv.Type, v.I)}, true
 		}
 		if IsBuiltin(info, x, "len") && len(x.Args) == 1 {
 			if bs, bound := bp.Strings[ObjOf(info, x.Args[0])]; bound {
@@ -686,7 +702,7 @@ func (bp *BytePred) exec(info *types.Info, list []ast.Stmt, env bpEnv, depth int
 			} else {
 				l.I--
 			}
-			env[obj] = bpVal{I: truncate(obj.Type(), l.I)}
+			env[obj] = bpVal{I: bp.trunc(obj.Type(), l.I)}
 		case *ast.ForStmt:
 			if s.Init != nil {
 				if _, _, ok := bp.exec(info, []ast.Stmt{s.Init}, env, depth+1); !ok {
@@ -797,7 +813,7 @@ func (bp *BytePred) exec(info *types.Info, list []ast.Stmt, env bpEnv, depth int
 					}
 					v := vals[i]
 					if !v.Is && !v.IsS && !v.U {
-						v.I = truncate(obj.Type(), v.I)
+						v.I = bp.trunc(obj.Type(), v.I)
 					}
 					env[obj] = v
 				}
@@ -837,7 +853,7 @@ func (bp *BytePred) exec(info *types.Info, list []ast.Stmt, env bpEnv, depth int
 					bp.Stores[tobj] = map[int64]int64{}
 				}
 				if at, ok := tobj.Type().Underlying().(*types.Array); ok {
-					rv.I = truncate(at.Elem(), rv.I)
+					rv.I = bp.trunc(at.Elem(), rv.I)
 				}
 				bp.Stores[tobj][iv.I] = rv.I
 				continue
@@ -894,7 +910,7 @@ func (bp *BytePred) exec(info *types.Info, list []ast.Stmt, env bpEnv, depth int
 			}
 			if s.Tok == token.ASSIGN || s.Tok == token.DEFINE {
 				if !r.Is && !r.IsS {
-					r.I = truncate(obj.Type(), r.I)
+					r.I = bp.trunc(obj.Type(), r.I)
 				}
 				env[obj] = r
 				continue
@@ -951,7 +967,7 @@ func (bp *BytePred) exec(info *types.Info, list []ast.Stmt, env bpEnv, depth int
 			default:
 				return bpVal{}, false, false
 			}
-			env[obj] = bpVal{I: truncate(obj.Type(), v)}
+			env[obj] = bpVal{I: bp.trunc(obj.Type(), v)}
 		case *ast.IfStmt:
 			if s.Init != nil {
 				if _, _, ok := bp.exec(info, []ast.Stmt{s.Init}, env, depth+1); !ok {
